@@ -279,6 +279,8 @@ fn install_hook() {
 struct IoShared {
     reset: bool,
     written: Vec<u8>,
+    /// bytes of the peer's stream that the client has read
+    read: usize,
 }
 
 #[derive(Debug)]
@@ -296,7 +298,12 @@ impl AsyncRead for ClientIo {
         if self.sh.lock().unwrap().reset {
             return Poll::Ready(Err(reset_err()));
         }
-        Pin::new(&mut self.inner).poll_read(cx, buf)
+        let before = buf.filled().len();
+        let r = Pin::new(&mut self.inner).poll_read(cx, buf);
+        if let Poll::Ready(Ok(())) = &r {
+            self.sh.lock().unwrap().read += buf.filled().len() - before;
+        }
+        r
     }
 }
 
@@ -341,6 +348,8 @@ struct ObInner {
     res: [Vec<String>; 4],
     /// tokens of the frames the peer has completely written
     pw: Vec<String>,
+    /// offset in the peer's stream at which each of them ends
+    pw_end: Vec<usize>,
     pw_at_fail: usize,
     cw_len_at_fail: usize,
     cw_len_at_fail2: usize,
@@ -768,6 +777,7 @@ impl PeerSt {
         if n == bytes.len() {
             let mut g = self.ob.i.lock().unwrap();
             g.pw.push(tok.to_string());
+            g.pw_end.push(self.written);
             g.p2c_len = self.written;
         }
         if let Some((at, how)) = self.is_cut(true) {
@@ -1165,8 +1175,13 @@ fn client_tokens_complete(bytes: &[u8]) -> Vec<String> {
     out
 }
 
-/// (trace, client's whole byte stream length)
-fn run_parsed(mut case: Case) -> String {
+fn run_parsed(case: Case) -> String {
+    run_parsed_full(case).0
+}
+
+/// (trace, tokens of ALL the frames the peer has written, including those after the failure, how many of them the
+/// client has read completely: after a reset what was written last is lost)
+fn run_parsed_full(mut case: Case) -> (String, Vec<String>, usize) {
     install_hook();
     // "one past the last frame": before=N+1 is after=N
     if let Kind::Inject { what, err, closed, pos: Pos::Before(j), silent } = case.kind {
@@ -1186,12 +1201,12 @@ fn run_parsed(mut case: Case) -> String {
     let panics = PANICS.with(|p| p.get());
     let loc = PANIC_LOC.with(|p| p.borrow().clone());
     match r {
-        Ok(t) => format!("{} panics={}{}", t, panics, if panics > 0 { format!("@{}", loc) } else { String::new() }),
-        Err(_) => format!("HARNESS-PANIC panics={}@{}", panics, loc),
+        Ok((t, pw, rd)) => (format!("{} panics={}{}", t, panics, if panics > 0 { format!("@{}", loc) } else { String::new() }), pw, rd),
+        Err(_) => (format!("HARNESS-PANIC panics={}@{}", panics, loc), Vec::new(), 0),
     }
 }
 
-async fn run_async(case: Case) -> String {
+async fn run_async(case: Case) -> (String, Vec<String>, usize) {
     let (a, b) = tokio::io::duplex(case.pipe);
     let ios = Arc::new(Mutex::new(IoShared::default()));
     let ob = Ob {
@@ -1203,6 +1218,7 @@ async fn run_async(case: Case) -> String {
             at_fail: None,
             res: Default::default(),
             pw: Vec::new(),
+            pw_end: Vec::new(),
             pw_at_fail: 0,
             cw_len_at_fail: 0,
             cw_len_at_fail2: 0,
@@ -1314,13 +1330,24 @@ async fn run_async(case: Case) -> String {
         written.len(),
         g.nat_frames
     ));
-    out
+    let read = ios.lock().unwrap().read;
+    let delivered = g.pw_end.iter().filter(|e| **e <= read).count();
+    (out, g.pw.clone(), delivered)
 }
 
 pub fn run_case(line: &str) -> String {
     match parse_case(line) {
         Some(c) => run_parsed(c),
         None => "BAD-CASE-LINE".to_string(),
+    }
+}
+
+/// the trace, the tokens of all the frames the peer has written (the trace's `pw` stops at the failure) and the
+/// number of those frames that the client has read
+pub fn run_case_full(line: &str) -> (String, Vec<String>, usize) {
+    match parse_case(line) {
+        Some(c) => run_parsed_full(c),
+        None => ("BAD-CASE-LINE".to_string(), Vec::new(), 0),
     }
 }
 
